@@ -75,7 +75,8 @@ fn exec_plain(level: &PriceLevel, generator: &UuidGenerator, hooks: &SeqHooks, o
 
 fn c11_profile() -> Profile {
     Profile {
-        zero: false,
+        zero: true,
+        zero_pct: 25,
         restores: false,
         reads: false,
         probes: false,
